@@ -106,6 +106,32 @@ pub fn run(thorough: bool, seed: u64, _replay: Option<String>) -> Report {
             rep.sample(format!("file {} ({} bytes) -> {}", tag, bytes.len(), via_path.show().chars().take(100).collect::<String>()));
         }
     }
+    // the same path rewritten in place with other content of the same length (same second, same size): what the path
+    // answers is what the file holds *now*
+    {
+        let p = dir.join("rewritten.txt");
+        let versions: Vec<Vec<u8>> = vec![
+            b"plain ascii text of a certain length, nothing special....".to_vec(),
+            "d\u{e9}j\u{e0} vu: na\u{ef}ve caf\u{e9} cr\u{e8}me br\u{fb}l\u{e9}e, no\u{eb}l".as_bytes().to_vec(),
+            enc_bytes_lossy("\u{41f}\u{440}\u{438}\u{432}\u{435}\u{442}, \u{43c}\u{438}\u{440}! \u{42d}\u{442}\u{43e} \u{43f}\u{440}\u{43e}\u{432}\u{435}\u{440}\u{43a}\u{430} \u{43a}\u{43e}\u{434}\u{438}\u{440}\u{43e}\u{432}\u{43a}\u{438} \u{442}\u{435}\u{43a}\u{441}\u{442}\u{430}.", "windows-1251"),
+        ];
+        let len = versions.iter().map(|v| v.len()).min().unwrap_or(0);
+        let s0 = Sett::default();
+        for round in 0..(if thorough { 12 } else { 6 }) {
+            let mut v = versions[round % versions.len()].clone();
+            v.truncate(len);
+            std::fs::write(&p, &v).expect("rewrite temp file");
+            let via_path = real_from_path(&p, &s0);
+            let via_bytes = real_detect(&v, &s0);
+            rep.evaluations += 1;
+            rep.oracle_checked += 1;
+            rep.count("history:rewritten-in-place");
+            if via_path != via_bytes {
+                rep.fail("oracle", "C14:path-answers-for-earlier-content", &format!("round {}: from_path: {} || from_bytes(current content): {}", round, via_path.show(), via_bytes.show()), &v, Some(&s0), "rewritten-in-place");
+            }
+        }
+        let _ = std::fs::remove_file(&p);
+    }
     // fault kinds
     let s = Sett::default();
     let mut fault = |rep: &mut Report, kind: &str, p: &std::path::Path, want: &str| {
